@@ -104,6 +104,9 @@ def run_path(program, c, prefix, lookup=None):
     ctypes = {}
     params = list(func.params)
     self_obj = None
+    fr0 = Frame(func, env, None)
+    fr0.ctypes = ctypes
+    ex.frames.append(fr0)
     if func.cls is not None and 'staticmethod' not in func.decorators:
         cls = func.cls
         if c.self_class:
@@ -114,9 +117,7 @@ def run_path(program, c, prefix, lookup=None):
             self_obj = ex.symbolic_obj(cls, 'self', exact=True)
         env[params[0][0]] = self_obj
         params = params[1:]
-    fr0 = Frame(func, env, self_obj)
-    fr0.ctypes = ctypes
-    ex.frames.append(fr0)
+    fr0.self_obj = self_obj
     outcome = None
     try:
         for (name, ct, default) in params:
@@ -146,7 +147,7 @@ def run_path(program, c, prefix, lookup=None):
         ex.frames.pop()
         ex.old_env = old_env
         try:
-            rv = ex.run_body(func, env, ctypes, self_obj, contract=c)
+            rv = ex.run_body(func, dict(env), dict(ctypes), self_obj, contract=c)
             outcome = ('return', rv)
         except RaiseSig as r:
             outcome = ('raise', r.exc)
